@@ -243,13 +243,30 @@ class C19(Check):
                 if x in ('1', 'k'):
                     raise ex(x)
                 return ('parsed', x)
-            r = self.call([f'k{sep}1', f'j{sep}2'], sep=sep, parse=parser)
-            want = {'k': '1', ('parsed', 'j'): ('parsed', '2')}
-            if r[0] != 'ok' or r[1] != want:
-                res.violate('C19:custom-parser', 'a parser failure did not keep the original string', got=repr(r), want=repr(want))
-            r = self.call([f'k{sep}1'], sep=sep, parse=parser, parse_keys=False)
-            if r[0] != 'ok' or r[1] != {'k': '1'}:
-                res.violate('C19:custom-parser', 'parse_keys=False with a failing parser', got=repr(r))
+            # the same parser as a plain function and as callables that are not functions (no __name__, no __qualname__,
+            # no __code__): functools.partial, an instance with __call__ (with __slots__: no __dict__ either), a bound method
+            import functools
+
+            class CallableObj:
+                __slots__ = ()
+
+                def __call__(self, x):
+                    return parser(x)
+
+                def meth(self, x):
+                    return parser(x)
+            forms = {'function': parser, 'partial': functools.partial(parser), 'instance': CallableObj(),
+                     'bound_method': CallableObj().meth, 'partial_kw': functools.partial(lambda x, tag=None: parser(x), tag=1)}
+            for form, pf in forms.items():
+                st[f'parser_form_{form}'] += 1
+                r = self.call([f'k{sep}1', f'j{sep}2'], sep=sep, parse=pf)
+                want = {'k': '1', ('parsed', 'j'): ('parsed', '2')}
+                if r[0] != 'ok' or r[1] != want:
+                    res.violate('C19:custom-parser', 'a parser failure did not keep the original string', parser_form=form,
+                                got=repr(r), want=repr(want))
+                r = self.call([f'k{sep}1'], sep=sep, parse=pf, parse_keys=False)
+                if r[0] != 'ok' or r[1] != {'k': '1'}:
+                    res.violate('C19:custom-parser', 'parse_keys=False with a failing parser', parser_form=form, got=repr(r))
         elif kind == 'reentrant_items':
             # the item generator of one call makes another call with other settings before yielding more
             f = self.f
